@@ -23,7 +23,7 @@ def rerrTag : RErr → String
   | .bufferFull => "other" | .blocked => "unsupported"
 
 def woutTag : WOut → String
-  | .ok => "ok" | .timeout => "timeout" | .hard => "hard" | .closed => "netclosed"
+  | .ok => "ok" | .timeout => "timeout" | .hard => "hard" | .closed => "netclosed" | .gate => "gate"
 
 inductive Ev
   | save (key : Nat) (packet : Bytes) (seq : Nat) | saveFail (key : Nat)
@@ -51,6 +51,7 @@ structure DialPlan where
   ok : Bool
   reply : List Chunk := []    -- what the broker sends first (normally the CONNACK)
   wpol : List WPol := []
+  block : Bool := false       -- the Dialer blocks until the Client's context is cancelled
 deriving DecidableEq, Repr
 
 structure Conn where
@@ -98,6 +99,12 @@ structure S where
   placeholders : List Nat := []       -- exchange ids nobody listens to (AdoptSession)
   waiters : List (String × WaitKind) := []
   parked : Bool := false              -- the reader is inside ReadSlices, blocked between packets
+  parkedDial : Bool := false          -- … blocked inside the Dialer (holds connSem)
+  parkedHs : Option (Bool × Bool × Option Conn) := none
+      -- … blocked awaiting the CONNACK (holds connSem): (clean flag sent, entered from the prologue?, previous connSem value)
+  held : Option (String × WaitKind) := none    -- a request blocked inside conn.Write, holding the write lock
+  closers : List (String × Bool) := []         -- Close (false) / Disconnect (true) calls that are blocked
+  readerCancelled : Bool := false              -- the parked connect attempt was cancelled: ReadSlices returns ErrClosed
   inNewSession : Bool := false
   noClient : Bool := true             -- no usable *Client (before init, after a fatal AdoptSession)
   evs : List Ev := []                 -- newest first
@@ -151,14 +158,24 @@ def S.afterWriteErr (s : S) (o : WOut) : S × Err :=
   let s := if o == .closed then s else s.closeConn
   ({ s with link := .pending }, mkErr ["submit", woutTag o])
 
+/-- the next `conn.Write` on the live connection blocks (scripted gate) -/
+def S.gateAhead (s : S) : Bool :=
+  match s.conn with
+  | some c => match c.wpol with
+    | e :: _ => e.out == .gate
+    | [] => false
+  | none => false
+
 /-- the read routine's own submission (acknowledgements): never waits for a connect -/
 def S.readerWrite (s : S) (p : Bytes) : S × Option Err :=
   match s.link with
   | .closed => (s, some (mkErr ["closed"]))
   | .down | .pending => (s, some (mkErr ["down"]))
   | .live =>
+    if s.held.isSome || s.gateAhead then (s, some (mkErr ["unsupported"])) else   -- the reader itself would block
     let (s, o) := s.connWrite (writeTo · p)
     if o == .ok then (s, none) else
+      if o == .gate then (s, some (mkErr ["unsupported"])) else
       let (s, e) := s.afterWriteErr o
       (s, some e)
 
@@ -195,10 +212,56 @@ def S.releasePing (s : S) (e : Err) : S :=
   | some tag => ({ s with ping := none }).emit (.ret tag e)
   | none => s
 
+/-- replace the gate at the head of the write policy by the outcome the script released it with -/
+def S.openGate (s : S) (o : Option WPol) : S :=
+  match s.conn with
+  | some c =>
+    match c.wpol with
+    | e :: rest => if e.out == .gate then { s with conn := some { c with wpol := (match o with | some x => [x] | none => []) ++ rest } } else s
+    | [] => s
+  | none => s
+
+def S.openGateClosed (s : S) : S := s.openGate (some ⟨0, .closed⟩)
+
+/-- one request performs its write once it holds the write lock (client.go:640-706) -/
+def S.runWriter (s : S) (tag : String) (k : WaitKind) : S :=
+  if s.link != .live then
+    let e := if s.link == .closed then mkErr ["closed"] else mkErr ["down"]
+    match k with
+    | .pub0 _ => s.emit (.ret tag e)
+    | .sub id _ | .unsub id _ => ((s.endTx id).1).emit (.ret tag e)
+    | .ping => ({ s with ping := none }).emit (.ret tag e)
+  else
+    match k with
+    | .pub0 bufs =>
+      let (s, o) := s.connWrite (writeBuffersTo · bufs)
+      if o == .ok then s.emit (.ret tag errOk) else
+        let (s, e) := s.afterWriteErr o
+        s.emit (.ret tag e)
+    | .sub id p | .unsub id p =>
+      let (s, o) := s.connWrite (writeTo · p)
+      if o == .ok then s else
+        let (s, e) := s.afterWriteErr o
+        ((s.endTx id).1).emit (.ret tag e)
+    | .ping =>
+      let (s, o) := s.connWrite (writeTo · packetPINGREQ)
+      if o == .ok then s else
+        let (s, e) := s.afterWriteErr o
+        ({ s with ping := none }).emit (.ret tag e)
+
+/-- a waiter that found the live connection performs its write -/
+def S.runWaiters (s : S) : S :=
+  let s' := s.waiters.foldl (fun s (tag, k) => s.runWriter tag k) s
+  { s' with waiters := [] }
+
 /-- `toOffline` (client.go:566-597) -/
 def S.toOffline (s : S) : S :=
   if s.link == .closed then s else
   let s := s.closeConn
+  -- a request blocked inside conn.Write is interrupted by the close and hands the lock back
+  let s := match s.held with
+    | some (wtag, k) => (({ s with held := none }).openGateClosed).runWriter wtag k
+    | none => s
   let s := { s with link := .pending, readConn := false, big := none, peek := [] }
   let s := s.releasePing (mkErr ["break"])
   s.breakAll
@@ -256,50 +319,77 @@ def S.failWaiters (s : S) (e : Err) : S :=
     s.emit (.ret tag e)) s
   { s' with waiters := [] }
 
-/-- a waiter that found the live connection performs its write (client.go:640-657) -/
-def S.runWaiters (s : S) : S :=
-  let s' := s.waiters.foldl (fun s (tag, k) =>
-    if s.link != .live then
-      let e := if s.link == .closed then mkErr ["closed"] else mkErr ["down"]
-      match k with
-      | .pub0 _ => s.emit (.ret tag e)
-      | .sub id _ | .unsub id _ => ((s.endTx id).1).emit (.ret tag e)
-      | .ping => ({ s with ping := none }).emit (.ret tag e)
+inductive ConnectResult
+  | done (e : Option Err)
+  | parkedDial          -- the Dialer blocks
+  | parkedHs            -- the CONNACK is withheld
+  | unsupported (why : String)
+deriving DecidableEq, Repr
+
+/-- after a failed handshake: close, restore connSem, ErrDown for waiting requests (client.go:911-918, 1007-1010) -/
+def S.connectFail (s : S) (prev : Option Conn) (e : Err) : S × ConnectResult :=
+  let s := s.closeConn
+  -- the failed connection is not installed in connSem (previousConn is restored)
+  let s := { s with conn := if s.hadConn then prev else none, link := .down }
+  (s.failWaiters (mkErr ["down"]), .done (some e))
+
+/-- `handshake` from the CONNACK on, then `resend` and release (client.go:1062-1110, 920-954) -/
+def dropSatisfiedBlocks : List Chunk → List Chunk
+  | [] => []
+  | [c] => [c]
+  | .block :: rest => dropSatisfiedBlocks rest
+  | c :: rest => c :: dropSatisfiedBlocks rest
+
+def S.connectFinish (s : S) (clean : Bool) (prev : Option Conn) : S × ConnectResult :=
+  match s.conn with
+  | none => (s, .done (some (mkErr ["other"])))
+  | some c =>
+    let c := { c with rd := { c.rd with inq := dropSatisfiedBlocks c.rd.inq } }
+    let s := { s with conn := some c }
+    let (rd, packet, e) := c.rd.peek 4
+    if e == some .blocked then
+      -- nothing consumed yet: wait for the rest of the CONNACK
+      (s, .parkedHs)
     else
-      match k with
-      | .pub0 bufs =>
-        let (s, o) := s.connWrite (writeBuffersTo · bufs)
-        if o == .ok then s.emit (.ret tag errOk) else
-          let (s, e) := s.afterWriteErr o
-          s.emit (.ret tag e)
-      | .sub id p | .unsub id p =>
-        let (s, o) := s.connWrite (writeTo · p)
-        if o == .ok then s else
-          let (s, e) := s.afterWriteErr o
-          ((s.endTx id).1).emit (.ret tag e)
-      | .ping =>
-        let (s, o) := s.connWrite (writeTo · packetPINGREQ)
-        if o == .ok then s else
-          let (s, e) := s.afterWriteErr o
-          ({ s with ping := none }).emit (.ret tag e)) s
-  { s' with waiters := [] }
+    let s := { s with conn := some { c with rd := rd } }
+    match connackCheck clean packet e with
+    | .err e => s.connectFail prev e
+    | .ok sp =>
+      let s := if sp then s else { s with inNewSession := true }
+      let s := { s with conn := some { c with rd := (rd.discard 4).1 }, hadConn := true }
+      -- resend under both sequence locks and the write lock
+      let (s, l1, e1) := s.resend s.core.acked s.core.l1
+      let s := { s with core := { s.core with l1 := l1 } }
+      match e1 with
+      | some e =>
+        if e == mkErr ["gate"] then (s, .unsupported "write gate inside resend") else
+        ((({ s.closeConn with link := .down }).failWaiters (mkErr ["down"])), .done (some e))
+      | none =>
+        let (s, l2, e2) := s.resend s.core.completed s.core.l2
+        let s := { s with core := { s.core with l2 := l2 } }
+        match e2 with
+        | some e =>
+          if e == mkErr ["gate"] then (s, .unsupported "write gate inside resend") else
+          ((({ s.closeConn with link := .down }).failWaiters (mkErr ["down"])), .done (some e))
+        | none => ({ s with link := .live, readConn := true }, .done none)
 
 /-- `connect` (client.go:888-955) with `dialAndConnect` and `handshake` inlined -/
-def S.connect (s : S) : S × Option Err :=
-  if s.connSemClosed then (s, some (mkErr ["closed"])) else
+def S.connect (s : S) (fromPrologue : Bool) : S × ConnectResult :=
+  if s.connSemClosed then (s, .done (some (mkErr ["closed"]))) else
   let clean := s.cfg.cleanSession && !s.hadConn
   -- dialAndConnect: client identifier first
   match s.load Facts.clientIDKey with
-  | (s, .error e) => (({ s with link := .down }).failWaiters (mkErr ["down"]), some e)
+  | (s, .error e) => (({ s with link := .down }).failWaiters (mkErr ["down"]), .done (some e))
   | (s, .ok cid) =>
     let clientID := cid.getD []
     let (plan, rest) : DialPlan × List DialPlan := match s.dials with
       | p :: r => (p, r)
       | [] => ({ ok := true, reply := [.data [0x20, 2, 0, 0]] }, [])
     let s := { s with dials := rest }
+    if plan.block then ({ s with parkedDial := true }, .parkedDial) else
     if !plan.ok then
       let s := s.emit (.dial false)
-      (({ s with link := .down }).failWaiters (mkErr ["down"]), some (mkErr ["hard"]))
+      (({ s with link := .down }).failWaiters (mkErr ["down"]), .done (some (mkErr ["hard"])))
     else
       let c : Conn := { id := s.nconn, rd := { size := s.bufSize, inq := plan.reply ++ s.prefeed }, wpol := plan.wpol }
       let prev := s.conn
@@ -307,33 +397,11 @@ def S.connect (s : S) : S × Option Err :=
       -- handshake: CONNECT
       let cfg' : Cfg := { s.cfg with cleanSession := clean }
       let (s, o) := s.connWrite (writeTo · (cfg'.connreq clientID))
-      let fail (s : S) (e : Err) : S × Option Err :=
-        let s := s.closeConn
-        -- the failed connection is not installed in connSem (previousConn is restored)
-        let s := { s with conn := if s.hadConn then prev else none, link := .down }
-        (s.failWaiters (mkErr ["down"]), some e)
-      if o != .ok then fail s (mkErr [woutTag o]) else
-      match s.conn with
-      | none => (s, some (mkErr ["other"]))
-      | some c =>
-        let (rd, packet, e) := c.rd.peek 4
-        let s := { s with conn := some { c with rd := rd } }
-        match connackCheck clean packet e with
-        | .err e => fail s e
-        | .ok sp =>
-          let s := if sp then s else { s with inNewSession := true }
-          let s := { s with conn := some { c with rd := (rd.discard 4).1 }, hadConn := true }
-          -- resend under both sequence locks and the write lock
-          let (s, l1, e1) := s.resend s.core.acked s.core.l1
-          let s := { s with core := { s.core with l1 := l1 } }
-          match e1 with
-          | some e => ((({ s.closeConn with link := .down }).failWaiters (mkErr ["down"])), some e)
-          | none =>
-            let (s, l2, e2) := s.resend s.core.completed s.core.l2
-            let s := { s with core := { s.core with l2 := l2 } }
-            match e2 with
-            | some e => ((({ s.closeConn with link := .down }).failWaiters (mkErr ["down"])), some e)
-            | none => ({ s with link := .live, readConn := true }, none)
+      if o == .gate then (s, .unsupported "write gate on CONNECT") else
+      if o != .ok then s.connectFail prev (mkErr [woutTag o]) else
+      match s.connectFinish clean prev with
+      | (s, .parkedHs) => ({ s with parkedHs := some (clean, fromPrologue, prev) }, .parkedHs)
+      | r => r
 
 /-! ### The read routine -/
 
@@ -617,9 +685,12 @@ def S.rsLoop : Nat → S → S × RsResult
       if e == mkErr ["netclosed"] then
         -- closed by either Close, Disconnect, or failed write
         let s := s.toOffline
-        match s.connect with
-        | (s, some e) => (s, .err e)
-        | (s, none) =>
+        match s.connect false with
+        | (s, .done (some e)) => (s, .err e)
+        | (s, .parkedDial) => (s, .parked)
+        | (s, .parkedHs) => (s, .parked)
+        | (s, .unsupported w) => (s, .unsupported w)
+        | (s, .done none) =>
           if !s.waiters.isEmpty then
             if !s.quietAfterConnect then (s, .unsupported "waiter races with the reader") else
             S.rsLoop fuel s.runWaiters
@@ -680,49 +751,71 @@ def S.finishRs (s : S) (r : RsResult) : S × RsResult :=
   | .err e => if e.contains "closed" then (s.termCallbacks, r) else (s, r)
   | _ => (s, r)
 
-/-- `ReadSlices` (client.go:1170-1274): prologue, then the packet loop -/
+/-- the prologue of `readSlices` after the auto-connect (client.go:1189-1226), then the packet loop -/
+def S.rsAfterConnect (s : S) : S × RsResult :=
+  if !s.waiters.isEmpty && !s.quietAfterConnect then (s, .unsupported "waiter races with the reader") else
+  let s := s.runWaiters
+  -- flush big message if any
+  let (s, de) : S × Option Err := match s.big with
+    | some remaining => ({ s with big := none }).discard remaining
+    | none => (s, none)
+  match de with
+  | some e => s.toOffline.finishRs (.err e)
+  | none =>
+    -- skip previous packet, if any
+    let s := (s.discard s.peek.length).1
+    let s := { s with peek := [] }
+    -- acknowledge previous packet, if any
+    if !s.pendingAck.isEmpty then
+      let isRec := match s.pendingAck with | h :: _ => h.toNat / 16 == Facts.typePUBREC | [] => false
+      let (s, se) : S × Option Err :=
+        if isRec then
+          match s.pendingAck with
+          | _ :: _ :: hi :: lo :: _ => s.save (remoteKey (beU16 hi lo)) s.pendingAck
+          | _ => (s, none)
+        else (s, none)
+      match se with
+      | some e => s.finishRs (.err e)
+      | none =>
+        match s.readerWrite s.pendingAck with
+        | (s, some e) => s.toOffline.finishRs (.err e)
+        | (s, none) =>
+          let (s, r) := S.rsLoop s.rsFuel { s with pendingAck := [] }
+          s.finishRs r
+    else
+      let (s, r) := S.rsLoop s.rsFuel s
+      s.finishRs r
+
+/-- `ReadSlices` (client.go:1170-1274): prologue, then the packet loop. A call
+that is parked (between packets, awaiting the CONNACK) continues where it was. -/
 def S.readSlices (s : S) : S × RsResult :=
   if s.parked then
     let (s, r) := S.rsLoop (s.rsFuel) { s with parked := false }
     s.finishRs r
-  else
-  -- auto connect
-  let (s, ce) : S × Option Err := if !s.readConn then s.connect else (s, none)
-  match ce with
-  | some e => s.finishRs (.err e)
-  | none =>
-    if !s.waiters.isEmpty && !s.quietAfterConnect then (s, .unsupported "waiter races with the reader") else
-    let s := s.runWaiters
-    -- flush big message if any
-    let (s, de) : S × Option Err := match s.big with
-      | some remaining => ({ s with big := none }).discard remaining
-      | none => (s, none)
-    match de with
-    | some e => s.toOffline.finishRs (.err e)
-    | none =>
-      -- skip previous packet, if any
-      let s := (s.discard s.peek.length).1
-      let s := { s with peek := [] }
-      -- acknowledge previous packet, if any
-      if !s.pendingAck.isEmpty then
-        let isRec := match s.pendingAck with | h :: _ => h.toNat / 16 == Facts.typePUBREC | [] => false
-        let (s, se) : S × Option Err :=
-          if isRec then
-            match s.pendingAck with
-            | _ :: _ :: hi :: lo :: _ => s.save (remoteKey (beU16 hi lo)) s.pendingAck
-            | _ => (s, none)
-          else (s, none)
-        match se with
-        | some e => s.finishRs (.err e)
-        | none =>
-          match s.readerWrite s.pendingAck with
-          | (s, some e) => s.toOffline.finishRs (.err e)
-          | (s, none) =>
-            let (s, r) := S.rsLoop s.rsFuel { s with pendingAck := [] }
-            s.finishRs r
+  else if s.parkedDial then (s, .parked)     -- only a cancelled context ends the dial (see `closeClient`)
+  else match s.parkedHs with
+  | some (clean, fromPrologue, prev) =>
+    match ({ s with parkedHs := none }).connectFinish clean prev with
+    | (s, .parkedHs) => ({ s with parkedHs := some (clean, fromPrologue, prev) }, .parked)
+    | (s, .parkedDial) => (s, .parked)
+    | (s, .unsupported w) => (s, .unsupported w)
+    | (s, .done (some e)) => s.finishRs (.err e)
+    | (s, .done none) =>
+      if fromPrologue then s.rsAfterConnect
       else
-        let (s, r) := S.rsLoop s.rsFuel s
+        if !s.waiters.isEmpty && !s.quietAfterConnect then (s, .unsupported "waiter races with the reader") else
+        let (s, r) := S.rsLoop s.rsFuel s.runWaiters
         s.finishRs r
+  | none =>
+    -- auto connect
+    if !s.readConn then
+      match s.connect true with
+      | (s, .done (some e)) => s.finishRs (.err e)
+      | (s, .parkedDial) => (s, .parked)
+      | (s, .parkedHs) => (s, .parked)
+      | (s, .unsupported w) => (s, .unsupported w)
+      | (s, .done none) => s.rsAfterConnect
+    else s.rsAfterConnect
 
 /-- `BigMessage.ReadAll` (client.go:1343-1355) -/
 def S.readAll (s : S) : S × Except Err Bytes :=
@@ -764,8 +857,11 @@ def S.publish0 (s : S) (tag : String) (retain : Bool) (topic msg : Bytes) : S ×
       if !s.waiters.isEmpty then (s, .unsupported "second waiter") else
       ({ s with waiters := [(tag, .pub0 [hd, msg])] }, .blocked)
     | .go =>
+      if s.held.isSome || !s.closers.isEmpty then (s, .unsupported "request while the write lock is held") else
+      if s.gateAhead then ({ s with held := some (tag, .pub0 [hd, msg]) }, .blocked) else
       let (s, o) := s.connWrite (writeBuffersTo · [hd, msg])
       if o == .ok then (s, .ret errOk) else
+        if o == .gate then (s, .unsupported "write gate inside a packet") else
         let (s, e) := s.afterWriteErr o
         (s, .ret e)
 
@@ -793,7 +889,9 @@ def S.publishPersisted (s : S) (lvl : Nat) (retain : Bool) (topic msg : Bytes) :
         | .closed => (s.emit (.exch ex (mkErr ["closed"])), errOk, some ex)
         | .down | .pending => (s.emit (.exch ex (mkErr ["down"])), errOk, some ex)
         | .live =>
+          if s.held.isSome || s.gateAhead then (s, mkErr ["unsupported"], none) else
           let (s, o) := s.connWrite (writeBuffersTo · [mkHead key, msg])
+          if o == .gate then (s, mkErr ["unsupported"], none) else
           if o == .ok then ({ s with core := s.core.markSubmitted lvl }, errOk, some ex)
           else
             let (s, e) := s.afterWriteErr o
@@ -814,8 +912,11 @@ def S.subscribe (s : S) (tag : String) (filters : List Bytes) (levelMax : Nat) :
         if !s.waiters.isEmpty then (s, .unsupported "second waiter") else
         ({ s with waiters := [(tag, .sub id packet)] }, .blocked)
       | .go =>
+        if s.held.isSome || !s.closers.isEmpty then (s, .unsupported "request while the write lock is held") else
+        if s.gateAhead then ({ s with held := some (tag, .sub id packet) }, .blocked) else
         let (s, o) := s.connWrite (writeTo · packet)
         if o == .ok then (s, .blocked) else
+          if o == .gate then (s, .unsupported "write gate inside a packet") else
           let (s, e) := s.afterWriteErr o
           ((s.endTx id).1, .ret e)
 
@@ -834,8 +935,11 @@ def S.unsubscribe (s : S) (tag : String) (filters : List Bytes) : S × CallResul
         if !s.waiters.isEmpty then (s, .unsupported "second waiter") else
         ({ s with waiters := [(tag, .unsub id packet)] }, .blocked)
       | .go =>
+        if s.held.isSome || !s.closers.isEmpty then (s, .unsupported "request while the write lock is held") else
+        if s.gateAhead then ({ s with held := some (tag, .unsub id packet) }, .blocked) else
         let (s, o) := s.connWrite (writeTo · packet)
         if o == .ok then (s, .blocked) else
+          if o == .gate then (s, .unsupported "write gate inside a packet") else
           let (s, e) := s.afterWriteErr o
           ((s.endTx id).1, .ret e)
 
@@ -849,8 +953,11 @@ def S.pingCall (s : S) (tag : String) : S × CallResult :=
     if !s.waiters.isEmpty then (s, .unsupported "second waiter") else
     ({ s with waiters := [(tag, .ping)] }, .blocked)
   | .go =>
+    if s.held.isSome || !s.closers.isEmpty then (s, .unsupported "request while the write lock is held") else
+    if s.gateAhead then ({ s with held := some (tag, .ping) }, .blocked) else
     let (s, o) := s.connWrite (writeTo · packetPINGREQ)
     if o == .ok then (s, .blocked) else
+      if o == .gate then (s, .unsupported "write gate inside a packet") else
       let (s, e) := s.afterWriteErr o
       ({ s with ping := none }, .ret e)
 
@@ -872,25 +979,86 @@ def S.quit (s : S) (tag : String) : S × Option Err :=
       if s.ping == some tag then ({ s with ping := none }, some (mkErr ["abandoned"]))
       else (s, none)
 
-/-- `Close` (client.go:388-423); a parked reader is woken by the closed connection -/
-def S.closeClient (s : S) : S :=
-  if s.connSemClosed then s else
+/-- the semaphores are closed: every blocked closer returns (client.go:398-405, 393-397) -/
+def S.finishClosers (s : S) : S :=
+  let s' := s.closers.foldl (fun s (tag, isDisc) => s.emit (.ret tag (if isDisc then mkErr ["closed"] else errOk))) s
+  { s' with closers := [] }
+
+/-- `Close` (client.go:388-423) once it holds connSem and found the write semaphore `link` -/
+def S.closeNow (s : S) : S :=
   let s := if s.link == .live then s.closeConn else s
   let s := { s with link := .closed, connSemClosed := true }
-  s.failWaiters (mkErr ["closed"])
+  (s.failWaiters (mkErr ["closed"])).finishClosers
 
-/-- `Disconnect` (client.go:434-477) with a quit channel that is not ready -/
-def S.disconnect (s : S) : S × Err :=
-  if s.connSemClosed then (s, mkErr ["closed"]) else
+/-- `Disconnect` (client.go:434-477) once it holds connSem and the write semaphore -/
+def S.disconnectNow (s : S) : S × Err :=
   match s.link with
   | .pending | .down =>
-    (({ s with link := .closed, connSemClosed := true }).failWaiters (mkErr ["closed"]), mkErr ["down"])
+    ((({ s with link := .closed, connSemClosed := true }).failWaiters (mkErr ["closed"])).finishClosers, mkErr ["down"])
   | .closed => (s, mkErr ["closed"])
   | .live =>
+    if s.gateAhead then (s, mkErr ["unsupported"]) else
     let (s, o) := s.connWrite (writeTo · packetDISCONNECT)
     let s := s.closeConn
-    let s := ({ s with link := .closed, connSemClosed := true }).failWaiters (mkErr ["closed"])
+    let s := (({ s with link := .closed, connSemClosed := true }).failWaiters (mkErr ["closed"])).finishClosers
     (s, if o == .ok then errOk else mkErr ["submit", woutTag o])
+
+inductive CloseResult | ret (e : Err) | blocked | unsupported (why : String)
+deriving DecidableEq, Repr
+
+/-- the reader was blocked in the Dialer and the context got cancelled (client.go:906-909) -/
+def S.cancelDial (s : S) : S := { s with parkedDial := false, readerCancelled := true }
+
+/-- `Close` / `Disconnect(nil)` from any state. `isDisc` selects Disconnect. -/
+def S.closeCall (s : S) (tag : String) (isDisc : Bool) : S × CloseResult :=
+  if s.connSemClosed then (s, .ret (if isDisc then mkErr ["closed"] else errOk)) else
+  if !s.closers.isEmpty then ({ s with closers := s.closers ++ [(tag, isDisc)] }, .blocked) else
+  if s.parkedDial then
+    -- cancel() ends the dial: connect restores connSem and returns ErrClosed; then this call proceeds
+    let s := (s.cancelDial).failWaiters (mkErr ["closed"])
+    if isDisc then
+      let (s, e) := s.disconnectNow
+      (s, .ret e)
+    else (s.closeNow, .ret errOk)
+  else match s.parkedHs with
+  | some (_, _, prev) =>
+    -- the abort goroutine closes the connection; handshake fails; connect leaves connDown and restores connSem
+    let s := s.closeConn
+    let s := { s with parkedHs := none, conn := if s.hadConn then prev else none, link := .down, readerCancelled := true }
+    let s := s.failWaiters (mkErr ["closed"])
+    if isDisc then
+      let (s, e) := s.disconnectNow
+      (s, .ret e)
+    else (s.closeNow, .ret errOk)
+  | none =>
+    match s.held with
+    | some (wtag, k) =>
+      if isDisc then
+        -- Disconnect waits for the write lock without touching the connection
+        ({ s with closers := [(tag, true)] }, .blocked)
+      else
+        -- Close interrupts the writer by closing the connection, then takes the lock from it
+        let s := s.closeConn
+        let s := s.openGateClosed
+        let s := ({ s with held := none }).runWriter wtag k
+        (s.closeNow, .ret errOk)
+    | none =>
+      if isDisc then
+        let (s, e) := s.disconnectNow
+        (s, .ret e)
+      else (s.closeNow, .ret errOk)
+
+/-- the script opens the write gate with an outcome: the blocked request goes on, then a waiting Disconnect -/
+def S.release (s : S) (o : Option WPol) : S :=
+  match s.held with
+  | none => s
+  | some (wtag, k) =>
+    let s := (({ s with held := none }).openGate o).runWriter wtag k
+    match s.closers with
+    | (tag, true) :: rest =>
+      let (s, e) := ({ s with closers := rest }).disconnectNow
+      s.emit (.ret tag e)
+    | _ => s
 
 /-! ### Session set-up -/
 
